@@ -66,6 +66,8 @@ type strOut struct {
 	Canon     []string  `json:"canon"`
 	MatchPath []bool    `json:"match_path"`
 	MatchHost []bool    `json:"match_host"`
+	HelpersMissing      []string `json:"helpers_missing,omitempty"`       // helper twins the source no longer has
+	HostHelperDisagrees []string `json:"host_helper_disagrees,omitempty"` // matchHosts(h, [p]) != what the resolver decides
 }
 
 func strFuncs(in []byte) (any, error) {
@@ -80,7 +82,11 @@ func strFuncs(in []byte) (any, error) {
 		o.Base = append(o.Base, hx(path.Base(s)))
 	}
 	for _, h := range c.Hosts {
-		o.NormHost = append(o.NormHost, hx(app.VerifNormalizeHost(unhx(h))))
+		if app.VerifNormalizeHostFn == nil {
+			o.HelpersMissing = append(o.HelpersMissing, "normalizeHost")
+			break
+		}
+		o.NormHost = append(o.NormHost, hx(app.VerifNormalizeHostFn(unhx(h))))
 	}
 	for _, t := range c.Trims {
 		o.Trim = append(o.Trim, hx(strings.TrimSpace(unhx(t))))
@@ -101,7 +107,11 @@ func strFuncs(in []byte) (any, error) {
 		o.MatchPath = append(o.MatchPath, router.MatchPath(unhx(pp[0]), unhx(pp[1])))
 	}
 	for _, hp := range c.HostPairs {
-		o.MatchHost = append(o.MatchHost, app.VerifMatchHosts(unhx(hp[0]), []string{unhx(hp[1])}))
+		if app.VerifMatchHostsFn == nil {
+			o.HelpersMissing = append(o.HelpersMissing, "matchHosts")
+			break
+		}
+		o.MatchHost = append(o.MatchHost, app.VerifMatchHostsFn(unhx(hp[0]), []string{unhx(hp[1])}))
 	}
 	return o, nil
 }
